@@ -290,7 +290,7 @@ def in_domain(pid, beh, d):
         c["op"] == "add" and not any(x["op"] == "startTest" and x["t"] == c["t"] for x in ops) for c in ops[: d["step"] + 1]
     )
     if pid == "C08":
-        return not startless and not beh["preff"] and not any(c["op"] in ("setff", "stop") for c in ops)
+        return not startless
     if pid == "C04":
         return not startless
     # C17 states predicates about tags: an exception counts when it comes out of the tag machinery (or the tag context
@@ -314,14 +314,25 @@ def abstract(beh):
 FLAVOURS = ("tc", "ph", "eh")
 
 
+_DRIFT_SEEN = set()
+
+
 def report_divergences(rep, pid, beh, flavour, divs, cfg):
     for d in culprits(Stack(beh["stack"]), divs):
         cl = d["clause"]
         if cl.startswith("drift"):
+            key = (cl, beh["stack"]["name"])
+            if key in _DRIFT_SEEN:
+                continue
+            _DRIFT_SEEN.add(key)
             rep.note_drift("%s %s step %d node %d: expected %s observed %s" % (cl, beh["stack"]["name"], d["step"], d["node"], d["expected"], d["observed"]))
             continue
         if cl == "raised":
             if not in_domain(pid, beh, d):
+                key = ("raise", d["where"], d["exc"])
+                if key in _DRIFT_SEEN:
+                    continue
+                _DRIFT_SEEN.add(key)
                 rep.note_drift("exception outside the domain of %s: %s in %s after %s" % (pid, d["observed"], d["where"], abstract(beh)["calls"][: d["step"] + 1]))
                 continue
             cl = pid.lower() + "_raised"
@@ -461,6 +472,16 @@ def run(tier, pid):
         "replayed into the real classes over testresult.doubles with per-call comparison of every node. Non-trivial = >= 2 "
         "outcomes, >= 2 adapters or >= 2 tag operations; distinct by (stack, history, kind of test object).",
     )
+    rep.assume("histories start with startTestRun; outcomes are reported between startTest and stopTest (C17 adds the startTest-less addSkip + stopTest pair)")
+    rep.assume("innermost targets are testresult.doubles (plus recording subclasses that only log calls and snapshot current_tags)")
+    rep.assume("tags()/time() calls reaching a target are mechanism: compared as DRIFT only; verdicts use current_tags, tags at the outcome, and the (event, test, kind, payload class) log")
+    if pid == "C04":
+        rep.assume("failfast is assigned after wrapping only on objects that define it, and only when it was not preset on the wrapped results")
+        rep.assume("wasSuccessful()/testsRun of ExtendedToStreamDecorator (StreamSummary) belong to C10")
+    if pid == "C08":
+        rep.assume("progress() is issued only where every decorator on the way has a target with progress(); no startTest-less outcomes")
+    if pid == "C17":
+        rep.assume("nodes below a buffering adapter (ThreadsafeForwardingResult, ExtendedToStreamDecorator) are judged by the tags they observe at outcomes only")
     plan = PLANS[pid][tier]
     covered = set()
     kept = []
@@ -475,6 +496,14 @@ def run(tier, pid):
         kw = dict(kw)
         if "simulate" in kw:
             kw["seed"] = rep.seed + 1
+        if isinstance(flav, str):
+            # non-vacuity: with the known deviation of the code switched on in the mechanism, TLC must find the property violated
+            r = tlc.run_tlc("results", "MCResults", cfg, workers=4, timeout=600)
+            if r.violated != flav:
+                raise tlc.MachineryError("%s %s: the coded variant should violate %s, TLC says %r %r" % (pid, cfg, flav, r.violated, r.error))
+            rep.add_tlc(r, cfg + " (deviation switched on: %s violated, as it must be)" % flav)
+            rep.extra.setdefault("coded_counterexamples", []).append(flav)
+            continue
         r, n = run_cfg(rep, pid, cfg, flav, keep=keep, **kw)
         covered |= {a for a, v in r.coverage.items() if v[1] > 0}
         if flav is not NOREPLAY and n == 0:
@@ -499,6 +528,10 @@ def tc_only(n):
     return ("tc",)
 
 
+def every3(n):
+    return ("tc", "ph", "eh")
+
+
 def tc_ph(n):
     return ("tc",) if n % 2 else ("ph",)
 
@@ -507,17 +540,34 @@ def NOREPLAY(n):
     return ()
 
 
+SIMQ = dict(simulate=dict(num=120, depth=40), workers=4)
+SIMT = dict(simulate=dict(num=2500, depth=40), workers=8)
+# (config, kinds of test objects per behaviour | NOREPLAY | name of the invariant/property TLC must report violated, TLC options)
 PLANS = {
-    "C08": {"quick": [("rs_expA.cfg", all3, {})], "thorough": [("rs_expA.cfg", all3, {})]},
-    "C04": {"quick": [("rs_expC1.cfg", tc_only, {}), ("rs_expC2.cfg", tc_only, {}), ("rs_expC3.cfg", tc_only, {}),
-                      ("rs_expP.cfg", tc_only, {})],
-            "thorough": []},
-    "C17": {"quick": [("rs_expT1.cfg", tc_ph, {}), ("rs_expT2.cfg", tc_ph, {}), ("rs_expT3.cfg", tc_ph, {})], "thorough": []},
+    "C08": {
+        "quick": [("rs_mcA3.cfg", NOREPLAY, {}), ("rs_expA.cfg", all3, {}), ("rs_expB.cfg", tc_ph, {}), ("rs_sim.cfg", tc_ph, SIMQ)],
+        "thorough": [("rs_mcA3.cfg", NOREPLAY, {}), ("rs_mcA3all.cfg", NOREPLAY, {}), ("rs_expA.cfg", every3, {}), ("rs_expB.cfg", tc_ph, {}),
+                     ("rs_expB2.cfg", tc_ph, {}), ("rs_sim.cfg", tc_ph, SIMT)],
+    },
+    "C04": {
+        "quick": [("rs_codedFF.cfg", "FailFastStops", {}), ("rs_expC1.cfg", tc_only, {}), ("rs_expC2.cfg", tc_only, {}),
+                  ("rs_expC3.cfg", tc_only, {}), ("rs_expP.cfg", tc_only, {}), ("rs_simFF.cfg", tc_only, SIMQ)],
+        "thorough": [("rs_codedFF.cfg", "FailFastStops", {}), ("rs_mcC.cfg", NOREPLAY, {}), ("rs_expC1.cfg", tc_only, {}),
+                     ("rs_expC2.cfg", tc_only, {}), ("rs_expC3.cfg", tc_only, {}), ("rs_expC4.cfg", tc_only, {}), ("rs_expP.cfg", tc_only, {}),
+                     ("rs_simFF.cfg", tc_only, SIMT), ("rs_sim.cfg", tc_only, SIMT)],
+    },
+    "C17": {
+        "quick": [("rs_codedTags.cfg", "TagsScoped", {}), ("rs_codedTFR.cfg", "TagsObserved", {}), ("rs_expT1.cfg", tc_ph, {}),
+                  ("rs_expT2.cfg", tc_ph, {}), ("rs_expT3.cfg", tc_ph, {}), ("rs_simSkip.cfg", tc_ph, SIMQ)],
+        "thorough": [("rs_codedTags.cfg", "TagsScoped", {}), ("rs_codedTFR.cfg", "TagsObserved", {}), ("rs_mcT.cfg", NOREPLAY, {}),
+                     ("rs_expT1.cfg", tc_ph, {}), ("rs_expT2.cfg", tc_ph, {}), ("rs_expT3.cfg", tc_ph, {}), ("rs_expT4.cfg", tc_ph, {}),
+                     ("rs_simSkip.cfg", tc_ph, SIMT), ("rs_sim.cfg", tc_ph, SIMT)],
+    },
 }
 NEEDED = {
-    "C08": ["StartTestRun", "StopTestRun", "StartTest", "Outcome", "StopTest"],
-    "C04": [],
-    "C17": [],
+    "C08": ["StartTestRun", "StopTestRun", "StartTest", "Outcome", "StopTest", "Time", "Done", "Progress", "Tags"],
+    "C04": ["StartTestRun", "StopTestRun", "StartTest", "Outcome", "StopTest", "Stop", "SetFailfast"],
+    "C17": ["StartTestRun", "StopTestRun", "StartTest", "Outcome", "StopTest", "Tags", "SkipAdd", "SkipStop"],
 }
 
 
@@ -525,6 +575,32 @@ def replay_file(path, pid):
     use_repo()
     v = json.load(open(path))
     sc = v["scenario"]
+    if "behaviour" not in sc:
+        # testtools.run scenario (c04_exit): run it again and show what comes out
+        from . import results_run as rr
+
+        if sc["mode"] == "subprocess":
+            rc, summ, _ = rr.run_subprocess(sc["kinds"], sc["failfast"])
+            got = dict(summ, exit=rc)
+        else:
+            code, summ, started = rr.run_program(sc["kinds"], sc["failfast"])
+            got = dict(summ, exit=bool(code) if code != "no-exit" else code, started=started)
+        print("replay: expected=%r observed=%r" % (v["expected"], got))
+        if got != v["expected"]:
+            print("VIOLATION property=%s replay=%s" % (pid, path))
+            return 1
+        return 0
+    if v["clause"] == "c04_suite":
+        from . import results_run as rr
+        from . import results_rt as rt
+
+        started, stop = rr.run_suite(sc["behaviour"])
+        got = {"started": started, "stop": rt.b2s(stop) if isinstance(stop, bool) else stop}
+        print("replay: expected=%r observed=%r" % (v["expected"], got))
+        if got != v["expected"]:
+            print("VIOLATION property=%s replay=%s" % (pid, path))
+            return 1
+        return 0
     divs, _ = replay(sc["behaviour"], sc["tests"])
     bad = [d for d in divs if d["clause"] in CLAUSES[pid] or d["clause"] == "raised"]
     if bad:
